@@ -43,10 +43,10 @@ if [ $APPLY = ok ]; then
   if [ -n "$SKIP_BASELINE" ] && [ -f $OUT/confirm.json ] && grep -q "baseline_missing 0" $OUT/confirm.json; then
     BASE="(carried over from the confirmation at $(python3 -c "import json;print(json.load(open('$OUT/confirm.json'))['repo_head'])")) $(python3 -c "import json;print(json.load(open('$OUT/confirm.json'))['baseline_with_patch'])")"
   else
-  BASE=$(/tmp/tools/run_baseline.sh $W 2>&1 | grep -E "^passed|MISSING" | tr '\n' ';')
+  BASE=$(/verif/tools/run_baseline.sh $W 2>&1 | grep -E "^passed|MISSING" | tr '\n' ';')
   if ! echo "$BASE" | grep -q "baseline_missing 0"; then
     sleep 30
-    BASE2=$(/tmp/tools/run_baseline.sh $W 2>&1 | grep -E "^passed|MISSING" | tr '\n' ';')
+    BASE2=$(/verif/tools/run_baseline.sh $W 2>&1 | grep -E "^passed|MISSING" | tr '\n' ';')
     BASE="retry: $BASE2 first: $BASE"
   fi
   fi
